@@ -186,7 +186,7 @@ def run_case(case, ctx, st):
             fp = gen.build_estimator(name, params).fit_predict(Xin, y)
             need(np.array_equal(np.asarray(fp), labels), "fit_predict-differs-from-fit", {"fit_predict": fp, "labels_": labels})
             # the same on data the model has not seen (inductive estimators, affinities that can be recomputed)
-            if name not in gen.NONPARAMETRIC and pre is None and name != "KernelRIM":
+            if name not in gen.NONPARAMETRIC and pre is None:
                 m2 = int(rng.integers(max(2, K), 20))
                 X2 = gen.make_data(rng, m2, d, kind)
                 if form == "int":
